@@ -1,5 +1,5 @@
 (* Pinned statements of the C13 theorems: a changed statement no longer type-checks here. *)
-From BT Require Import Base.Util Base.Float Model.RTree Model.BBIFile Model.BigWigWrite Model.Accept
+From BT Require Import Base.Util Base.Float Model.RTree Model.BBIFile Model.BigWigWrite Model.Accept Model.Utf8
   Model.AcceptBed Proofs.RTreeShape Proofs.AcceptParse Proofs.AcceptRules Proofs.AcceptParallel Proofs.WriterTotal.
 From BT Require Model.BigBedWrite.
 From BT Require Properties.C13.
@@ -21,21 +21,29 @@ Check (C13.C13_bb_position_independent : forall sort_all sizes pre (x : name * e
   item_class bb_val_class sort_all sizes (seen_at [] None pre) (last_opt pre) x (hd_error post) = Some k ->
   exists k', serial bb_check_val sort_all sizes (ok_lines (pre ++ x :: post)) = Err k').
 Check (C13.C13_bw_text : forall fok o sizes text,
-  (all_ok (bw_lines fok text) = None -> exists k, bw_text_serial fok o sizes text = Err k)
-  /\ (forall items, all_ok (bw_lines fok text) = Some items ->
-      bw_text_serial fok o sizes text = rule_verdict bw_val_class (o_sort_all o) sizes items)).
+  (all_ok (bw_lines_u fok text) = None -> exists k, bw_text_serial_u fok o sizes text = Err k)
+  /\ (forall items, all_ok (bw_lines_u fok text) = Some items ->
+      bw_text_serial_u fok o sizes text = rule_verdict bw_val_class (o_sort_all o) sizes items)
+  /\ (forall l, In l (lines_of text) -> utf8_ok l = false -> all_ok (bw_lines_u fok text) = None)
+  /\ (Forall (fun l => utf8_ok l = true) (lines_of text) ->
+      bw_lines_u fok text = bw_lines fok text /\ bw_text_serial_u fok o sizes text = bw_text_serial fok o sizes text
+      /\ bw_text_parallel_u fok o sizes text = bw_text_parallel fok o sizes text)).
 Check (C13.C13_bb_text : forall o sizes text,
-  (all_ok (bb_lines text) = None -> exists k, bb_text_serial o sizes text = Err k)
-  /\ (forall items, all_ok (bb_lines text) = Some items ->
-      bb_text_serial o sizes text = rule_verdict bb_val_class (o_sort_all o) sizes items)).
+  (all_ok (bb_lines_u text) = None -> exists k, bb_text_serial_u o sizes text = Err k)
+  /\ (forall items, all_ok (bb_lines_u text) = Some items ->
+      bb_text_serial_u o sizes text = rule_verdict bb_val_class (o_sort_all o) sizes items)
+  /\ (forall l, In l (lines_of text) -> utf8_ok l = false -> all_ok (bb_lines_u text) = None)
+  /\ (Forall (fun l => utf8_ok l = true) (lines_of text) ->
+      bb_lines_u text = bb_lines text /\ bb_text_serial_u o sizes text = bb_text_serial o sizes text
+      /\ bb_text_parallel_u o sizes text = bb_text_parallel o sizes text)).
 Check (C13.C13_serial_eq_parallel_verdict : forall (V : Type) (vclass : N -> V -> option V -> option N) sort_all sizes
     (l : list (pline V)), l <> [] ->
   (serial (chk_of vclass) sort_all sizes l = Ok tt <-> parallel (chk_of vclass) sort_all sizes (line_runs l) = Ok tt)
   /\ plain (parallel (chk_of vclass) sort_all sizes (line_runs l))
   /\ plain (serial (chk_of vclass) sort_all sizes l)).
 Check (C13.C13_text_serial_eq_parallel : forall fok o sizes text, lines_of text <> [] ->
-  (bw_text_serial fok o sizes text = Ok tt <-> bw_text_parallel fok o sizes text = Ok tt)
-  /\ (bb_text_serial o sizes text = Ok tt <-> bb_text_parallel o sizes text = Ok tt)).
+  (bw_text_serial_u fok o sizes text = Ok tt <-> bw_text_parallel_u fok o sizes text = Ok tt)
+  /\ (bb_text_serial_u o sizes text = Ok tt <-> bb_text_parallel_u o sizes text = Ok tt)).
 Check (C13.C13_parse_u32 : forall s n,
   parse_u32 s = Some n <->
   exists body, (s = body \/ s = 43 :: body) /\ body <> [] /\ forallb is_digit body = true
